@@ -13,14 +13,17 @@ EXTENDS Naturals, Sequences, FiniteSets, TLC, SequencesExt
 
 Listable(e) == e.k \in {"cron", "time", "both"}
 TaskSeq(c) == [i \in 1..Len(c.tasks) |-> c.tasks[i].entries]
-Expected(c, st) ==
+(* `ad` = tasks that started on another broker (or in the shared registry) and were registered on the source's own     *)
+(* broker later on: from then on they are tasks of its own broker.                                                    *)
+ExpectedO(c, st, ad) ==
   FlattenSeq([i \in 1..Len(st) |->
-     IF c.tasks[i].own
+     IF c.tasks[i].own \/ i \in ad
      THEN LET es == SelectSeq(st[i], Listable) IN [j \in 1..Len(es) |-> [task |-> i, k |-> es[j].k, t |-> es[j].t, a |-> es[j].a]]
      ELSE <<>>])
+Expected(c, st) == ExpectedO(c, st, {})
 DropAt(s, i) == [j \in 1..(Len(s) - 1) |-> IF j < i THEN s[j] ELSE s[j + 1]]
 
-LblObsInit(c) == [poss |-> {TaskSeq(c)}, pk |-> <<>>]
+LblObsInit(c) == [poss |-> {TaskSeq(c)}, pk |-> <<>>, ad |-> {}]
 
 LblFold(c, o, ev) ==
   CASE ev.e = "fire" ->
@@ -31,16 +34,17 @@ LblFold(c, o, ev) ==
                                         : st \in o.poss}
                             ELSE @]
     [] ev.e = "kick" -> [o EXCEPT !.pk = <<>>]
-    [] ev.e = "list" -> [o EXCEPT !.poss = LET m == {st \in o.poss : Expected(c, st) = ev.items} IN IF m = {} THEN o.poss ELSE m]
+    [] ev.e = "adopt" -> [o EXCEPT !.ad = @ \cup {ev.task}]
+    [] ev.e = "list" -> [o EXCEPT !.poss = LET m == {st \in o.poss : ExpectedO(c, st, o.ad) = ev.items} IN IF m = {} THEN o.poss ELSE m]
     [] OTHER -> o
 
 LblCheck(c, op, o, ev) ==
-     (IF ev.e = "list" /\ ~\E st \in op.poss : Expected(c, st) = ev.items
-      THEN (IF \E st \in op.poss : Len(Expected(c, st)) = Len(ev.items) THEN {"C16_Listing"} ELSE {"C16_RemoveOne"})
+     (IF ev.e = "list" /\ ~\E st \in op.poss : ExpectedO(c, st, op.ad) = ev.items
+      THEN (IF \E st \in op.poss : Len(ExpectedO(c, st, op.ad)) = Len(ev.items) THEN {"C16_Listing"} ELSE {"C16_RemoveOne"})
       ELSE {})
   \cup (IF ev.e \in {"list", "fire"} /\ op.pk # <<>> THEN {"C16_SendMissing"} ELSE {})
   \cup (IF ev.e = "kick" /\ (op.pk = <<>> \/ op.pk # <<ev.task, ev.a>> \/ ~ev.ok) THEN {"C16_LabelPayload"} ELSE {})
-  \cup (IF ev.e = "fire" /\ ~\E st \in op.poss : \E i \in DOMAIN Expected(c, st) :
-                                Expected(c, st)[i] = [task |-> ev.task, k |-> ev.k, t |-> ev.t, a |-> ev.a]
+  \cup (IF ev.e = "fire" /\ ~\E st \in op.poss : \E i \in DOMAIN ExpectedO(c, st, op.ad) :
+                                ExpectedO(c, st, op.ad)[i] = [task |-> ev.task, k |-> ev.k, t |-> ev.t, a |-> ev.a]
         THEN {"C16_FiredUnlisted"} ELSE {})
 =============================================================================
